@@ -31,6 +31,9 @@ func CaptureStdio() *StdioGuard {
 		g.keep = true
 	} else {
 		g.f, err = os.CreateTemp("", "verif-stdio-*.cap")
+		if err == nil {
+			os.Remove(g.f.Name()) // stays readable through the descriptor, leaves nothing behind
+		}
 	}
 	Must(err, "stdio capture file")
 	g.saved1, err = syscall.Dup(1)
